@@ -758,13 +758,14 @@ class UniformTime(np.ndarray, TimeInterface):
 
     def _convert_and_check_uniformity(self, val):
         # look at the units - convert the values to what they need to be (in
-        # the base_unit) and then delegate to the ndarray.__iadd__
+        # the base_unit), without touching the caller's array, and check that
+        # adding them preserves uniformity
         if not hasattr(val, '_conversion_factor'):
             val = np.asarray(val)
             if getattr(val, 'dtype', None) == np.int32:
                 # we'll overflow if val's dtype is np.int32
                 val = np.array(val, dtype=np.int64)
-            val *= self._conversion_factor
+            val = val * self._conversion_factor
         if hasattr(val, 'ndim') and val.ndim == 1:
             # we have to check that adding this will preserve uniformity
             dv = np.diff(val)
@@ -775,23 +776,40 @@ class UniformTime(np.ndarray, TimeInterface):
                     interval between them in order to preserve uniformity.
                     Uniformity is broken at these indices: %s
                     """ %str(uniformity_breaks))
-            self.sampling_interval += dv[0]
+        return val
+
+    def _follow_shift(self, val, sign):
+        # The samples have moved by sign * val (in the base_unit): move t0
+        # and, for a ramp, the interval, the duration and the rate with them
+        val = sign * np.asarray(val)
+        if val.ndim == 1:
+            self.t0 = self.t0 + TimeArray(val[0], time_unit=base_unit)
+            dv = TimeArray(val[1] - val[0], time_unit=base_unit)
+            self.sampling_interval = self.sampling_interval + dv
+            self.duration = self.duration + len(self) * dv
             self.sampling_rate = Frequency(1.0 / (float(self.sampling_interval) /
                                         time_unit_conversion[self.time_unit]),
                                         time_unit=self.time_unit)
-        return val
+        else:
+            self.t0 = self.t0 + TimeArray(val, time_unit=base_unit)
 
     def __iadd__(self, val):
         val = self._convert_and_check_uniformity(val)
-        return np.ndarray.__iadd__(self, val)
+        np.ndarray.__iadd__(self, val)
+        self._follow_shift(val, 1)
+        return self
 
     def __isub__(self, val):
         val = self._convert_and_check_uniformity(val)
-        return np.ndarray.__isub__(self, val)
+        np.ndarray.__isub__(self, val)
+        self._follow_shift(val, -1)
+        return self
 
     def __imul__(self, val):
         np.ndarray.__imul__(self, val)
-        self.sampling_interval *= val
+        self.t0 = self.t0 * val
+        self.sampling_interval = self.sampling_interval * val
+        self.duration = self.duration * val
         self.sampling_rate = Frequency(self.sampling_rate / val)
         return self
 
